@@ -601,7 +601,11 @@ func oraclePollTiming(o *e2eOutcome, v vfn) {
 				fp := "polled-before-fully-transmitted"
 				if sum >= size {
 					fp = "polled-on-byte-count-with-duplicate-parts"
-				} else if mixedDescriptors(o, name, hash, q.Gen) {
+				} else if mixedDescriptors(o, name, hash, q.Gen) ||
+					(truth > 0 && q.Sizes[name] > 0 && q.Sizes[name] != truth && o.w.isVersionSize(name, q.Sizes[name]) && lateOtherVersionPayload(o, name, hash, q.Gen, q.At)) {
+					// (second clause: the poll pairs this hash with ANOTHER version's size, and a
+					// payload of that other version was answered after the cache entry switched -
+					// the third face of the in-place cache update)
 					fp = "sent-with-descriptor-mixing-two-versions"
 				}
 				v("C02", "poll-after-all-bytes-transmitted", fp, fmt.Sprintf("poll request #%d asks about %s (hash %s) when the receiver had acknowledged only %d of its %d bytes (bytes acknowledged counting repeats: %d)", q.ID, name, hash, got, size, sum))
@@ -1513,6 +1517,15 @@ func crashImageCheck(w *world, out *e2eOutcome, when string) {
 // listingSoundCheck (C06 I2): after Recover, every range the partials listing
 // claims holds exactly the source bytes of the announced version
 func listingSoundCheck(w *world, out *e2eOutcome) {
+	// let the data requests in flight finish and keep new ones out meanwhile
+	w.holdData.Store(true)
+	defer w.holdData.Store(false)
+	for k := 0; k < 3000 && w.dataInFlight.Load() > 0; k++ {
+		time.Sleep(20 * time.Millisecond)
+	}
+	if w.dataInFlight.Load() > 0 {
+		return // a request that never ends (injected outage): no listing this time
+	}
 	listing, err := w.recv.listing()
 	if err != nil {
 		return
@@ -1589,6 +1602,12 @@ func oracleNoDuplicateData(o *e2eOutcome, v vfn) {
 			maxGen = r.Gen
 		}
 	}
+	answeredAt := map[string]time.Duration{} // request id | name -> when the receiver computed its poll answer
+	for _, e := range o.events {
+		if e.Kind == "poll_code" {
+			answeredAt[fmt.Sprintf("%d|%s", e.Req, e.Name)] = e.VT
+		}
+	}
 	for g := 2; g <= maxGen; g++ {
 		held := map[string][]iv{}      // name|hash -> ranges listed in the first successful partials answer
 		confirmed := map[string]bool{} // names polled passed/waiting during start-up recovery
@@ -1613,7 +1632,12 @@ func oracleNoDuplicateData(o *e2eOutcome, v vfn) {
 				for n, c := range r.Codes {
 					if c == sts.ConfirmPassed || c == sts.ConfirmWaiting {
 						confirmed[n] = true
+						// the moment the RECEIVER gave the answer (it may reach the sender much
+						// later; what the receiver delivered in between was not what it answered for)
 						confirmedAt[n] = r.End
+						if t, ok := answeredAt[fmt.Sprintf("%d|%s", r.ID, n)]; ok {
+							confirmedAt[n] = t
+						}
 					}
 					if c == sts.ConfirmFailed || c == sts.ConfirmNone {
 						failed[n] = true
@@ -1628,6 +1652,7 @@ func oracleNoDuplicateData(o *e2eOutcome, v vfn) {
 					// (the poll goes by name: the answer can only have been about THIS version
 					// if the receiver held it validated when it answered)
 					if confirmed[p.Name] && deliveredVersionBy(o, p.Name, p.Hash, confirmedAt[p.Name]) {
+
 						v("C07", "confirmed-files-not-resent", "resent-confirmed-file", fmt.Sprintf("sender generation %d transmitted %s%s although the receiver had answered passed/waiting for it after the restart", g, p.Name, fmtIv(p.Beg, p.End)))
 					}
 					for _, h := range held[p.Name+"|"+p.Hash] {
